@@ -81,6 +81,11 @@ CLAIMED = {
   "Model-driven exploration: a seeded sample of one- and two-member documents x 8 command-line behaviours over json, yaml, toml and cue, with --escape, -e and package-vs-file arguments; every exported text is read with an independent decoder and compared with the ground truth, every step must exit 0 (all data is concrete; TOML only for its safe subset: no null, integers within int64, 64-bit floats, key order not compared), and import followed by export --out json must reproduce the data.",
   "trusted: TLC, the independent decoders (Go encoding/json with UseNumber and ordered tokens; yaml.v3 node tags), the category pools; canary: the data comparison must notice a changed scalar kind, number kind and key order. Byte-level content outside the pools is not covered (DESIGN.md §7).",
   "DESIGN.md §3 C10-C12"),
+ "C06": ("model_checking",
+  "TLA+ spec CueArith.tla (result kind, error conditions, exact results as fractions, Euclidean/truncated division identities, total order, symbolic large operands as polynomials in B, structural literal spellings with their value), checked by TLC; every state evaluated by the real evaluator and compared with exact big-number arithmetic",
+  "CueArith.tla gives for every operator in {+ - * / div mod quo rem == != < <= > >=} and every pair of 24 small numbers (ints and quarter-step decimals) the required kind, whether an error is required, and the exact result as a fraction; TLC checks the division identities and trichotomy. The harness evaluates each expression: error iff required, int exactly when the spec says so, value equal to the exact fraction (quotients rounded to 34 significant digits with math/big), and printing (CUE and JSON) reads back as the same number. (B+i) op (B+j) for i, j in -2..2 is computed symbolically in the model and instantiated at +-2^63, +-2^64, +-10^34, +-10^400. 441 structural literal spellings (bases, _ grouping, fraction, exponent, SI/IEC multipliers) must denote exactly mantissa * 10^e10 * 2^e2 with the right kind. A genuine loss of integer exactness beyond 34 digits found on the unchanged tree is recorded as known finding.",
+  "trusted: TLC, math/big, the rendering; canary (perturbed expectation) must be noticed. Not covered: random operands with hundreds of digits, pkg/math beyond div/mod/quo/rem (TLC integers are 32 bit).",
+  "DESIGN.md §3 C06"),
 }
 
 NOT_YET = "check not built yet in this round (see DESIGN.md §8 for the order of construction)"
